@@ -8,7 +8,7 @@
      - every operation is one atomic step (the model mutex), so a concurrent execution is a
        schedule over whole operations (theorems C19_concurrent_is_sequential, C19_concurrent_invariants). *)
 From SC Require Import Base.Prelude Electric.Model Electric.ModelProofs Electric.C19Judge Electric.JudgeProofs
-  Electric.ConcStreamProofs Electric.LockDefs Electric.Fine Gen.ElectricLocks Electric.FineProofs.
+  Electric.ConcStreamProofs Electric.Config Electric.ConfigProofs Electric.UpdateOpts Electric.UpdateOptsProofs Electric.LockDefs Electric.Fine Gen.ElectricLocks Electric.FineProofs.
 
 (* 1. at most one mode is marked normal, after any sequence of operations *)
 Theorem C19_at_most_one_normal : forall initial ops, wf_initial initial ->
@@ -255,3 +255,122 @@ Example C19_nonvacuous_concurrent :
   run_sched [0; 1; 0; 1]%nat [t1; t2] (init_state []) =
     mkState [mkM "a" "" true None] (mkM "a" "" true (Some 5)) true.
 Proof. vm_compute. split; reflexivity. Qed.
+
+(* ------------------------------------------------------------------ construction: NewModel(opts...) *)
+(* Electric/Config.v models calcModelArgs / the option constructors of model_opts.go: an option list
+   (WithInitialMode any number of times and anywhere, WithModeOption(WithInitialRecord), a plain
+   resource.WithInitialRecord, WithInitialActiveMode / WithActiveModeOption(WithInitialValue),
+   WithClock, resource.WithClock, WithRNG) is data.  [new_model opts] = None: NewModel panics. *)
+
+(* the state NewModel returns satisfies the invariant - for every option list in which at most one
+   configured mode is normal; [InvG a0] is [Inv] with "not changed -> active = a0" *)
+Theorem C19_config_establishes_invariant : forall opts s, new_model opts = Some s ->
+  normal_count (cfg_records opts) <= 1 -> InvG (cfg_active opts) s.
+Proof. exact new_model_inv. Qed.
+Print Assumptions C19_config_establishes_invariant.
+
+(* headline, from any configuration and after any history: at most one normal mode, two normal
+   members are equal, once changed the active id is stored, until then the active value is the
+   configured one *)
+Theorem C19_config_invariants : forall opts s0 ops, new_model opts = Some s0 ->
+  normal_count (cfg_records opts) <= 1 ->
+  let s := run s0 ops in
+  normal_count (modes s) <= 1 /\
+  (forall a b, In a (modes s) -> In b (modes s) -> mnormal a = true -> mnormal b = true -> a = b) /\
+  (changed s = true -> has (mid (active s)) (modes s) = true) /\
+  (changed s = false -> active s = cfg_active opts).
+Proof. exact config_invariants. Qed.
+Print Assumptions C19_config_invariants.
+
+(* clearing selects the normal mode, wherever in the option list it was configured or however it
+   became normal later *)
+Theorem C19_config_clear_selects_normal : forall opts s0 ops now n, new_model opts = Some s0 ->
+  normal_count (cfg_records opts) <= 1 ->
+  let s := run s0 ops in
+  In n (modes s) -> mnormal n = true ->
+  rcode (snd (step s now OClear)) = 0 /\ mid (active (fst (step s now OClear))) = mid n.
+Proof. exact config_clear_selects_normal. Qed.
+Print Assumptions C19_config_clear_selects_normal.
+
+(* what the option list amounts to: stored modes = all configured records; WithInitialMode is
+   additive; the last WithInitialActiveMode / electricpb.WithClock wins, nothing else touches them;
+   NewModel panics exactly on an empty id given to WithInitialMode or a repeated id *)
+Theorem C19_config_state : forall opts s, new_model opts = Some s ->
+  (forall m, In m (modes s) <-> In m (cfg_records opts)) /\
+  (forall id, has id (modes s) = has id (cfg_records opts)) /\
+  active s = cfg_active opts /\ changed s = false.
+Proof. exact new_model_state. Qed.
+Print Assumptions C19_config_state.
+
+Theorem C19_config_initial_mode_additive : forall pre l1 l2 post,
+  new_model (pre ++ CInitial (l1 ++ l2) :: post) = new_model (pre ++ CInitial l1 :: CInitial l2 :: post).
+Proof. exact initial_mode_additive. Qed.
+Print Assumptions C19_config_initial_mode_additive.
+
+Theorem C19_config_last_wins : forall opts o,
+  cfg_active (opts ++ [o]) = match o with CActive _ m => m | _ => cfg_active opts end /\
+  cfg_clock (opts ++ [o]) = match o with CClock k => k | _ => cfg_clock opts end.
+Proof. intros opts o. split; [apply cfg_active_last|apply cfg_clock_last]. Qed.
+Print Assumptions C19_config_last_wins.
+
+Theorem C19_config_event_clocks : forall opts o,
+  cfg_mclock (opts ++ [o]) = match o with CClock k | CResClock k | CModeClock k => k | _ => cfg_mclock opts end /\
+  cfg_aclock (opts ++ [o]) = match o with CClock k | CResClock k | CActiveClock k => k | _ => cfg_aclock opts end.
+Proof. exact cfg_event_clocks_last. Qed.
+
+Theorem C19_config_panics_iff : forall opts,
+  new_model opts = None <->
+  (exists ms m, In (CInitial ms) opts /\ In m ms /\ mid m = EmptyString) \/ ~ NoDup (keys (cfg_records opts)).
+Proof. exact new_model_panics_iff. Qed.
+Print Assumptions C19_config_panics_iff.
+
+(* deleting an absent mode on a model constructed with the active value a0: as C19_delete_absent,
+   the excluded id is that of a0 (DeleteMode refuses the id of the active value, stored or not) *)
+Theorem C19_delete_absent_config : forall a0 s now id allow, InvG a0 s ->
+  id <> EmptyString -> id <> mid a0 -> has id (modes s) = false ->
+  step s now (ODelete id allow) = (s, if allow then ok_ None else err_ cNotFound) /\
+  step s now (SDelete id allow) = (s, if allow then ok_ None else err_ cNotFound).
+Proof. intros a0. exact (@delete_absent_gen a0). Qed.
+Print Assumptions C19_delete_absent_config.
+
+(* non-vacuity: WithInitialMode twice, the normal mode in the first use and none in the last *)
+Example C19_config_nonvacuous :
+  exists s0, new_model [CClock 1; CInitial [ma]; CInitial [mc; mb]; CRng] = Some s0 /\
+  modes s0 = [ma; mb; mc] /\ normal_count (cfg_records [CClock 1; CInitial [ma]; CInitial [mc; mb]; CRng]) <= 1 /\
+  rcode (snd (step s0 10 (OAdd md))) = cAlreadyExists /\
+  rcode (snd (step s0 10 (OUpdate (mkM "b" "boost" true None) None))) = cAlreadyExists /\
+  mid (active (fst (step s0 10 SClear))) = "a"%string.
+Proof. exact config_nonvacuous. Qed.
+
+(* ------------------------------------------------------------------ UpdateMode with write options *)
+(* Electric/UpdateOpts.v: Model.UpdateMode with update mask x WithCreateIfAbsent x reset mask on a
+   store whose keys are kept apart from the bodies (updateMode + Collection.Update + FieldUpdater.Merge).
+   [wf_store]: every body is stored under its own id, keys are distinct, at most one body is normal. *)
+Theorem C19_update_options_keep_store : forall us l, wf_store l ->
+  wf_store (fold_left (fun l u => fst (fst (update_w true l (fst u) (snd u)))) us l).
+Proof. exact updates_w_wf. Qed.
+Print Assumptions C19_update_options_keep_store.
+
+Theorem C19_update_options_step : forall l m w, wf_store l -> wf_store (fst (fst (update_w true l m w))).
+Proof. exact update_w_wf. Qed.
+Print Assumptions C19_update_options_step.
+
+Theorem C19_update_returns_id : forall l m w l' b, update_w true l m w = (l', 0, Some b) -> mid b = mid m.
+Proof. exact update_w_returns_id. Qed.
+Print Assumptions C19_update_returns_id.
+
+(* the code before repair 76cf766 (no id-restoring interceptor): refuted for create-if-absent
+   without a reset mask and for a reset mask without create-if-absent *)
+Theorem C19_update_options_v0_refuted :
+  (exists l m w, keyed l /\ ~ keyed (fst (fst (update_w false l m w))) /\ w_reset w = None) /\
+  (exists l m w, keyed l /\ ~ keyed (fst (fst (update_w false l m w))) /\ w_create w = false).
+Proof. exact keyed_v0_refuted. Qed.
+
+Example C19_update_options_nonvacuous :
+  update_w true [] (mkM "x" "T" false None) (mkW (Some ["title"%string]) true None)
+    = ([("x"%string, mkM "x" "T" false None)], 0, Some (mkM "x" "T" false None)) /\
+  update_w true [("b"%string, mkM "b" "" false None)] (mkM "b" "z" false None) (mkW None false (Some ["id"%string]))
+    = ([("b"%string, mkM "b" "z" false None)], 0, Some (mkM "b" "z" false None)) /\
+  snd (fst (update_w true [] (mkM "x" "T" false None) (mkW (Some ["title"%string]) false None))) = cNotFound /\
+  snd (fst (update_w true [] (mkM "x" "T" false None) (mkW None true (Some ["bogus"%string])))) = cInternal.
+Proof. exact update_w_nonvacuous. Qed.
